@@ -72,7 +72,7 @@ fn run_swap(args: &Args, is_c04: bool) -> i32 {
     let rule = if is_c04 {
         "C04. Cases: every swap().execute() inside random histories (seed deposits, then swaps in both directions mixed with deposits, withdrawals, position increases/decreases, clock advances, price moves with min<=max spreads, keeper re-configuration) over production-like and adversarial configurations (zero / 100 % / >100 % fees, positive impact factor > negative, exponent 1/2/3 units, tiny max_pool_amount / reserve factor, optional virtual inventory), both number widths. The swap is executed WITHOUT driver snapshot/restore. Oracle: success => (liquidity+swap_impact+claimable_fee) of token_in grows by exactly amount_in and of token_out shrinks by exactly report.token_out_amount, total supply / every other pool / clocks untouched, virtual inventory (if configured) moves by exactly the liquidity pool's deltas; Err => every pool, supply and clock bit-identical to the pre-state. Non-trivial = a successful swap, or a failure decided after the pool computations (not EmptySwap / invalid prices). distinct_nontrivial counts distinct behaviour classes: (width, direction, impact sign, capped, second-pool top-up, zero fee, virtual inventory, spread classes, 4-bit-wide log2 buckets of in/pool and out/pool) for successes and (width, failure reason, direction, virtual inventory, log2 bucket of in/pool) for failures."
     } else {
-        "C05. Cases: the same swap histories as C04 (random histories over production-like and adversarial configurations, min<=max price spreads, both number widths). Oracle (exact BigInt, no rounding slack): for every successful swap out*P_out.max <= in*P_in.min + F where F = (token_out-side swap-impact pool decrease)*P_out.max + (token_in-side swap-impact pool decrease)*P_in.min, both decreases read from the pool state before/after (the in-side decrease is the second-pool top-up of a capped positive impact, converted by the code at P_in.min like the input itself); when the charged fee is zero and the price impact is zero (and the impact pools did not move) out == floor(in*P_in.min / P_out.max). Non-trivial = a successful swap. distinct_nontrivial counts distinct behaviour classes (width, direction, impact sign, capped, top-up, zero fee, virtual inventory, spread classes, log2 buckets of in/pool and out/pool, frictionless)."
+        "C05. Cases: the same swap histories as C04 (random histories over production-like and adversarial configurations, min<=max price spreads, both number widths). Oracle (exact BigInt, no rounding slack): for every successful swap out*P_out.max <= in*P_in.min + F where F = min(positive price impact value reported for the swap, (token_out-side swap-impact pool decrease)*P_out.max + (token_in-side swap-impact pool decrease)*P_in.min), both decreases read from the pool state before/after (the in-side decrease is the second-pool top-up of a capped positive impact, converted by the code at P_in.min like the input itself); when the charged fee is zero and the price impact is zero (and the impact pools did not move) out == floor(in*P_in.min / P_out.max). Non-trivial = a successful swap. distinct_nontrivial counts distinct behaviour classes (width, direction, impact sign, capped, top-up, zero fee, virtual inventory, spread classes, log2 buckets of in/pool and out/pool, frictionless)."
     };
     let mut mon = Monitor::new(args, rule);
     mon.assume(ASSUME_SCALE);
